@@ -5,7 +5,7 @@ from . import _w
 
 PROP = "C03"
 WEIGHTS = {"swap": 26, "swap_window": 6, "swap_malformed": 8, "provide": 14, "provide_first": 4, "withdraw": 12,
-           "route": 10, "donate": 6, "lp_burn": 4, "lp_transfer": 3, "unauth": 2, "provide_malformed": 4,
+           "route": 10, "donate": 6, "lp_burn": 4, "lp_transfer": 3, "unauth": 2, "provide_malformed": 8,
            "route_bad": 2, "intent": 4, "add_decimals": 1}
 
 
